@@ -44,6 +44,7 @@ def _edge(n, v):
 def check_enc(ctx, n, r, s, enum=False):
     l = olen(n)
     case = {"kind": "enc", "n": n, "r": r, "s": s}
+    ctx.case_sample(case)
     ctx.ev(3)
     try:
         a = U.sigencode_string(r, s, n)
